@@ -516,3 +516,92 @@ func reflectConvertRule(c *Ctx, r *Report, fn *ssa.Function, call *ssa.Call, siz
 	}
 	r.Check(ok, "R03c", name, what, c.Pos(call.Pos()), "guarded by the false edge of Overflow* on a zero value of the same type with the same operand", "a number is converted to the target type through reflect without the matching Overflow test on the same value and type: out-of-range settings wrap around")
 }
+
+// accessorTightRule (R06h): the numeric accessors of the stored values (cfgInt/cfgUint/cfgFloat toInt,
+// toUint, toFloat) convert every value the destination can represent. R03a demands that the guard in
+// front of a lossy conversion is strong enough; this rule demands that it is not stronger than the
+// destination's range: a guard that also rejects the largest (smallest) representable value makes an
+// extreme number that was written into a Config fail to come back (C06), although nothing wraps.
+func accessorTightRule(c *Ctx, r *Report) {
+	r.Rule("R06h", "the range guards of the numeric value accessors reject only values the destination cannot represent (the extreme representable values pass)", 3)
+	sizes := c.Pkgs[""].TypesSizes
+	if sizes == nil {
+		undecidedf("no type sizes for the loaded configuration")
+	}
+	for _, fn := range c.SrcFuncs() {
+		if fn.Pkg != c.SSA[""] || fn.Parent() != nil {
+			continue
+		}
+		rn := recvName(fn)
+		if !(rn == "cfgInt" || rn == "cfgUint" || rn == "cfgFloat") || !(fn.Name() == "toInt" || fn.Name() == "toUint" || fn.Name() == "toFloat") {
+			continue
+		}
+		name := c.FnName(fn)
+		Instrs(fn, false, func(in ssa.Instruction) {
+			x, ok := in.(*ssa.Convert)
+			if !ok {
+				return
+			}
+			src, ok1 := basicOf(x.X.Type(), sizes)
+			dst, ok2 := basicOf(x.Type(), sizes)
+			if !ok1 || !ok2 || classify(src, dst) == ncSafe {
+				return
+			}
+			if _, isConst := x.X.(*ssa.Const); isConst {
+				return
+			}
+			what := fmt.Sprintf("guard of %s -> %s", typeStr(x.X.Type()), typeStr(x.Type()))
+			fs := factsFor(x.X, x.Block())
+			one := new(big.Float).SetPrec(300).SetInt64(1)
+			rangeOf := func(bi basicInfo) (lo, hi *big.Float) { // inclusive for integers; for floats the exclusive powers of two
+				if bi.signed {
+					return new(big.Float).SetPrec(300).Neg(pow2(bi.bits - 1)), new(big.Float).SetPrec(300).Sub(pow2(bi.bits-1), one)
+				}
+				return new(big.Float).SetPrec(300), new(big.Float).SetPrec(300).Sub(pow2(bi.bits), one)
+			}
+			dlo, dhi := rangeOf(dst)
+			bad := ""
+			if !src.float && !dst.float {
+				slo, shi := rangeOf(src)
+				needHi, needLo := dhi, dlo
+				if shi.Cmp(needHi) < 0 {
+					needHi = shi
+				}
+				if slo.Cmp(needLo) > 0 {
+					needLo = slo
+				}
+				if fs.hi != nil {
+					adm := new(big.Float).SetPrec(300).Set(fs.hi.v)
+					if fs.hi.strict {
+						adm.Sub(adm, one)
+					}
+					if adm.Cmp(needHi) < 0 {
+						bad = fmt.Sprintf("values above %s are rejected although the destination holds up to %s", adm.Text('f', 0), needHi.Text('f', 0))
+					}
+				}
+				if fs.lo != nil {
+					adm := new(big.Float).SetPrec(300).Set(fs.lo.v)
+					if fs.lo.strict {
+						adm.Add(adm, one)
+					}
+					if adm.Cmp(needLo) > 0 {
+						bad = fmt.Sprintf("values below %s are rejected although the destination holds down to %s", adm.Text('f', 0), needLo.Text('f', 0))
+					}
+				}
+			} else if src.float && !dst.float {
+				// float operand: the bounds are the powers of two themselves (x < 2^63, x >= -2^63)
+				lim := new(big.Float).SetPrec(300).Add(dhi, one)
+				if fs.hi != nil && fs.hi.v.Cmp(lim) < 0 {
+					bad = fmt.Sprintf("numbers from %s on are rejected although everything below %s fits", fs.hi.v.Text('g', 22), lim.Text('g', 22))
+				}
+				if fs.lo != nil && fs.lo.v.Cmp(dlo) > 0 && dst.signed {
+					bad = fmt.Sprintf("numbers below %s are rejected although everything from %s on fits", fs.lo.v.Text('g', 22), dlo.Text('g', 22))
+				}
+			} else {
+				return
+			}
+			r.Check(bad == "", "R06h", name, what, c.Pos(x.Pos()), "the guard admits the whole range of the destination ("+strings.Join(fs.descr, ", ")+")",
+				"the range guard is stricter than the destination type: "+bad+" — an extreme number written into a Config does not come back")
+		})
+	}
+}
